@@ -159,7 +159,23 @@ func constValue(c *ssa.Const) Value {
 
 // ---- running ----
 
+// ensureBuilt waits until the SSA of fn's package is completely built
+// (Package.Build is once-guarded and blocks concurrent callers), so that no
+// worker observes a half-built function body.
+func ensureBuilt(fn *ssa.Function) {
+	f := fn
+	for f.Parent() != nil {
+		f = f.Parent()
+	}
+	if f.Pkg != nil {
+		f.Pkg.Build()
+	} else if o := f.Origin(); o != nil && o.Pkg != nil {
+		o.Pkg.Build()
+	}
+}
+
 func (p *Path) callFunction(th *Thread, caller *frame, fn *ssa.Function, args []Value, env []Value) Value {
+	ensureBuilt(fn)
 	info := p.P.info(fn)
 	if info.replaced != nil {
 		fn = info.replaced
@@ -590,6 +606,12 @@ func fieldName(t types.Type, i int) string {
 }
 
 func (fr *frame) tolerantCall(in *ssa.Call, fn Value, args []Value) (res Value) {
+	// Package initialisation is lazy: an init body does not run the inits of
+	// the packages it imports; each runs when one of its globals is first
+	// touched (Path.global).
+	if f, ok := fn.(*ssa.Function); ok && f != nil && f.Name() == "init" && f.Pkg != nil && f.Signature.Recv() == nil && f.Pkg.Func("init") == f {
+		return nil
+	}
 	defer func() {
 		if r := recover(); r != nil {
 			switch e := r.(type) {
